@@ -18,13 +18,17 @@ EXPLANATION = (
     "variable suffice for degree <= 1 in each... the identity is checked at 27 points and, being affine in the targets, at independent points); "
     "non-affine input must raise. solve_affine_equations_for on all integer systems with 1-3 unknowns, entries in {-2..2}, permuted rows, "
     "0-2 parameters: every returned assignment substituted back satisfies every equation identically in the parameters; singular or "
-    "non-integral systems must raise.  No function of this property is under a discharged contract (dict-merging loops, numpy object matrices).")
+    "non-integral systems must raise.  Deductive kernel (the property as a whole stays at the bounded level): the three loop-free handlers of the "
+    "collector - map_algebraic_leaf (target / non-target variable, with and without a target list), map_constant and map_power (a power is the constant "
+    "term when base and exponent are free of the targets, refused with RuntimeError otherwise; the children's coefficient dicts are opaque) - are proved "
+    "for every input of their kind; map_sum / map_product / map_quotient (loops over dicts of symbolic size) and the solver (numpy object matrices) are not.")
 ASSUMPTIONS = ["affine-ness is decided by an independent degree computation over the expression tree"]
 TRUSTED_BASE = ["fractions.Fraction"]
 
 
 def proof_jobs(tier):
-    return []
+    from contracts import c15 as K
+    return [("function", fc, None, None) for fc in K.FUNCTIONS]
 
 
 def degree_in(e, targets):
